@@ -6,6 +6,7 @@ package c12
 
 import (
 	"fmt"
+	"sort"
 	"strings"
 
 	"verifharness/hx"
@@ -32,6 +33,28 @@ type atom struct {
 	Path []string // chain of headings enclosing it (trimmed texts), outermost first
 	Pos  int      // ordinal of its element in document order
 	Lvl  int      // heading level (headings only)
+	Sec  *secInfo // the section (run of elements under one section-opening heading) it lies in
+}
+
+// secInfo is one section of the logical document as the property reads it: a
+// section-opening heading and the elements that follow it up to the next
+// section-opening heading (the elements before the first one form a section
+// without heading). Subsections are sections of their own: their elements are not
+// content of the enclosing section. Pages holds the page numbers the section's own
+// content — its heading included — came from.
+type secInfo struct {
+	Ord   int // 0 = before the first section-opening heading
+	Head  string
+	Pages map[int]bool
+}
+
+func (s *secInfo) pageList() []int {
+	var out []int
+	for p := range s.Pages {
+		out = append(out, p)
+	}
+	sort.Ints(out)
+	return out
 }
 
 func isWS(b byte) bool { return b == ' ' || (b >= 9 && b <= 13) }
@@ -79,12 +102,20 @@ func atomsOf(d ldoc, major func(level int) bool) []atom {
 	var out []atom
 	var hs []hd
 	pos := 0
+	sec := &secInfo{Pages: map[int]bool{}}
+	nsec := 0
 	for _, lp := range d.Pages {
 		for _, e := range lp.Elems {
 			pos++
+			if e.Kind == "h" && major(e.Level) {
+				nsec++
+				sec = &secInfo{Ord: nsec, Head: strings.TrimSpace(e.Text), Pages: map[int]bool{}}
+			}
+			sec.Pages[lp.Number] = true
+			sec := sec
 			add := func(kind, text string) {
 				if s := strip(text); s != "" {
-					out = append(out, atom{Kind: kind, Text: s, Page: lp.Number, Path: enclosing(hs), Pos: pos, Lvl: e.Level})
+					out = append(out, atom{Kind: kind, Text: s, Page: lp.Number, Path: enclosing(hs), Pos: pos, Lvl: e.Level, Sec: sec})
 				}
 			}
 			switch e.Kind {
@@ -325,6 +356,41 @@ func checkChunks(c *hx.Ctx, o coverOpts, atoms []atom, chunks []cview, kase inte
 		c.Check(o.prefix+"page-range", okPage, kase, func() string {
 			return fmt.Sprintf("chunk %d (%q…) reports pages %d-%d, its content came from pages %d-%d; %s", k, clip(ch.Text), ch.PS, ch.PE, lo, hi, what())
 		})
+		if !o.exactPage {
+			// Where a chunk is a piece of a section (layout-based chunker) its range may be
+			// wider than the pages of the piece, but it must still lie on pages its content
+			// came from: both ends are pages of the own content (heading included) of the
+			// section(s) the chunk's content lies in. The content of a subsection is not
+			// content of the enclosing section: a chunk of a parent section's own text must
+			// not reach over the pages of the subsections that follow.
+			allowed := map[int]bool{}
+			var secs []*secInfo
+			for _, a := range mine {
+				if a.Sec == nil {
+					continue
+				}
+				seen := false
+				for _, s := range secs {
+					seen = seen || s == a.Sec
+				}
+				if !seen {
+					secs = append(secs, a.Sec)
+					for p := range a.Sec.Pages {
+						allowed[p] = true
+					}
+				}
+			}
+			if len(secs) > 0 {
+				c.Check(o.prefix+"page-range-outside-section", allowed[ch.PS] && allowed[ch.PE], kase, func() string {
+					var sb strings.Builder
+					for _, s := range secs {
+						fmt.Fprintf(&sb, " section #%d %q: own content (heading included) on pages %v;", s.Ord, s.Head, s.pageList())
+					}
+					return fmt.Sprintf("chunk %d (%q…, section path %q) reports pages %d-%d, but its content (pages %d-%d) lies in%s an end of the reported range is a page none of that content came from; %s",
+						k, clip(ch.Text), ch.Path, ch.PS, ch.PE, lo, hi, sb.String(), what())
+				})
+			}
+		}
 		for _, a := range mine {
 			if !o.inPath[a.Kind] {
 				continue
